@@ -189,7 +189,8 @@ NOT_APPLICABLE = {
 Y_TEXT = (" In the modules the property is anchored in (engine Y): no method used as a truth value without being called, no one-shot iterator kept or "
           "read twice, no cache decorator on a generator / instance method, no written-to mutable default, no class-level container written through "
           "instances, no hash()/id() key of a lasting container, no memo whose key leaves out an argument the value depends on, no Optional result "
-          "computed with `and`, no labelling in set order.")
+          "computed with `and`, no labelling in set order, no copy / pickle hook that does anything but carry the whole instance dictionary over, "
+          "no discarded result of a method that only builds a new object.")
 
 
 def main():
